@@ -53,19 +53,22 @@ META = {
         "(R5) footnote_plugin runs with inline=False, move_to_end=False, always_match_refs=True (defaults read from the "
         "plugin source), and the `[text]{attrs}` span rule of attrs_plugin is inserted behind footnote_ref in markdown-it's "
         "inline chain (chain and insertion anchors read from markdown_it/parser_inline.py and the two plugin sources). "
-        "(R6) The duplicate test (one membership, an `or` of memberships, any() of either, also over itertools.chain) consults "
+        "(R6) The duplicate test (one membership, an `or` of memberships, any() of either, also over itertools.chain, or a "
+        "look-up T.get(key)/T[key] tested with isinstance / is not None) consults "
         "the footnote registries (both of them), not the document-wide name/id tables, "
         "compares labels verbatim as they are stored (no case/whitespace/character folding on either side), and "
         "everything it reads (registry entry, name) is stored before the footnote body is rendered, where a nested duplicate "
         "can occur. "
-        "(R7) The transforms take the footnote options from document.settings.myst_footnote_* only (attribute, getattr, "
+        "(R7) The transforms take the footnote options only from the per-document store the renderer writes - an attribute "
+        "myst_footnote_* of the document or of its settings, same object and same name on both sides (attribute, getattr with default, "
         "local alias or value helper with a literal/f-string name) - never from a build-wide configuration object such "
         "as env.myst_config, which ignores front matter; every such setting is written unconditionally during render from the same-named "
         "MdParserConfig field, and each front end's parse builds the configuration it hands to create_md_parser from the "
         "document at hand, never from an attribute the parser object stores itself (a memo that outlives the document). "
         "(R8) Sort keys are total: one comparable kind on all returns, or every label the renderer can create converts with int(). "
         "(R9) The footnote transition is attached only under a guard that looks at the document's children (not first) and "
-        "under a test for an existing final transition (not adjacent) whose look-out goes down the tree (advancing loop, "
+        "- when that guard is an all()/any() over the children or a test of one fixed child it must say exactly 'some child is not a "
+        "footnote' - and under a test for an existing final transition (not adjacent) whose look-out goes down the tree (advancing loop, "
         "recursion or docutils traversal), because docutils later hoists a transition that ends the last section. "
         "(R10) SortFootnotes ranks a footnote by the position of its FIRST reference (list.index, or a first-wins table "
         "- setdefault / `not in` guarded store / reversed fill - over autofootnote_refs or over the local list of their "
@@ -675,7 +678,7 @@ def _setting_reads(fi: FunctionInfo) -> list[ast.Attribute]:
     for n in fi.local_nodes():
         if isinstance(n, ast.Attribute) and isinstance(n.ctx, ast.Load) and n.attr.startswith(SETTING_PREFIX):
             b_ = _deref(fi, n.value) if isinstance(n.value, ast.Name) and n.value.id not in fi.params else n.value
-            if isinstance(b_, ast.Attribute) and b_.attr == "settings":
+            if isinstance(b_, ast.Attribute) and b_.attr in OPTION_HOLDERS:
                 out.append(n)
     return out
 
@@ -770,16 +773,21 @@ def r7_settings_plumbing(corpus: Corpus, rep: Report, tier: str):
         for n in fi.local_nodes():
             if isinstance(n, ast.Assign) and len(n.targets) == 1:
                 t = n.targets[0]
-                if isinstance(t, ast.Attribute) and t.attr.startswith(SETTING_PREFIX) and isinstance(t.value, ast.Attribute) and t.value.attr == "settings":
+                if isinstance(t, ast.Attribute) and t.attr.startswith(SETTING_PREFIX) and isinstance(t.value, ast.Attribute) and t.value.attr in OPTION_HOLDERS:
                     writers.setdefault(t.attr, []).append((fi, n))
     for name, rs in sorted(reads.items()):
         fi0, n0 = rs[0]
         key = f"setting {name}|written from md_config.{name[len('myst_'):]}"
         ws = writers.get(name, [])
         if not ws:
-            rep.violation("C11.R7", key, fi0.module.site(n0), f"{fi0.qualname} reads settings.{name} but the renderer never writes it")
+            rep.violation("C11.R7", key, fi0.module.site(n0), f"{fi0.qualname} reads the per-document option {name} but the renderer never stores it: the transform falls back to its default (or fails) whatever the document's configuration says")
             continue
         problems = []
+        w_holders = {w.targets[0].value.attr for _wf, w in ws}
+        for rfi, rn in rs:
+            h_ = _holder_of(rfi, rn)
+            if h_ is not None and h_ not in w_holders:
+                problems.append(f"{rfi.qualname} reads {name} from the document's `{h_}` object but the renderer stores it on `{'/'.join(sorted(w_holders))}`: the stored per-document value is never seen")
         for wfi, w in ws:
             v = w.value
             src_ok = isinstance(v, ast.Attribute) and isinstance(v.value, ast.Attribute) and v.value.attr == "md_config"
@@ -1152,6 +1160,25 @@ def _membership_polarity(atom: ast.expr, pol: bool, fi: FunctionInfo):
     # `label in A or label in B` == label in A + B (all operands positive memberships)
     if isinstance(atom, ast.BoolOp) and isinstance(atom.op, ast.Or) and all(_is_member_cmp(fi, v) for v in atom.values):
         return pol, atom
+    # look-up forms: isinstance(T.get(key), nodes.footnote) / T.get(key) is not None / T[key] ... with key = (a folding of) the label
+    look = atom
+    lpol = pol
+    if isinstance(look, ast.Compare) and len(look.ops) == 1 and isinstance(look.ops[0], (ast.Is, ast.IsNot)) and isinstance(look.comparators[0], ast.Constant) and look.comparators[0].value is None:
+        lpol = pol if isinstance(look.ops[0], ast.IsNot) else not pol
+        look = look.left
+    elif isinstance(look, ast.Call) and dotted(look.func) == "isinstance" and len(look.args) == 2:
+        look = look.args[0]
+    else:
+        look = None
+    if look is not None:
+        look = _deref(fi, look) if isinstance(look, ast.Name) else look
+        keyx = None
+        if isinstance(look, ast.Call) and isinstance(look.func, ast.Attribute) and look.func.attr == "get" and look.args:
+            keyx = look.args[0]
+        elif isinstance(look, ast.Subscript):
+            keyx = look.slice
+        if keyx is not None and _is_label_form(fi, keyx):
+            return lpol, atom
     if isinstance(atom, ast.Call) and dotted(atom.func) == "any" and len(atom.args) == 1 and isinstance(atom.args[0], (ast.GeneratorExp, ast.ListComp)):
         e0 = atom.args[0].elt
         if isinstance(e0, ast.BoolOp) and isinstance(e0.op, ast.Or) and all(_is_member_cmp(fi, v, (ast.In, ast.Eq)) for v in e0.values):
@@ -1276,7 +1303,11 @@ def r6_duplicate_test_registry_kind(corpus: Corpus, rep: Report, tier: str):
             "C11.R6",
             key,
             site,
-            f"the duplicate test `{short(atom, 70)}` consults document.{flat[0]}, which holds every named element (section titles, (target)= labels, other directives' names): a footnote whose label equals any such name is dropped as a 'duplicate', its text is lost and its references never resolve",
+            (
+                f"the duplicate test `{short(atom, 70)}` consults document.ids, which is keyed by ids (make_id of a name, or a serial 'footnote-N' for numeric labels), not by labels: distinct labels share an id key and numeric labels have none, so a definition is dropped as 'duplicate' wrongly or a real duplicate goes unnoticed"
+                if flat[0] == "ids"
+                else f"the duplicate test `{short(atom, 70)}` consults document.{flat[0]}, which holds every named element (section titles, (target)= labels, other directives' names): a footnote whose label equals any such name is dropped as a 'duplicate', its text is lost and its references never resolve"
+            ),
         )
     elif regs:
         rep.ok("C11.R6", key, site, f"derived from document.{', '.join(regs)}")
@@ -1367,9 +1398,24 @@ def _is_document(e: ast.AST) -> bool:
     return isinstance(e, ast.Attribute) and e.attr == "document" and _is_name(e.value, "self")
 
 
+OPTION_HOLDERS = ("settings", "document")  # the renderer stores per-document options on the document or on its settings
+
+
 def _setting_name(e: ast.expr) -> str | None:
-    if isinstance(e, ast.Attribute) and isinstance(e.value, ast.Attribute) and e.value.attr == "settings":
-        return e.attr
+    """name of a per-document option read ``<x>.settings.<name>`` / ``<x>.document.myst_<name>``"""
+    if isinstance(e, ast.Attribute) and isinstance(e.value, ast.Attribute):
+        if e.value.attr == "settings" or (e.value.attr == "document" and e.attr.startswith("myst_")):
+            return e.attr
+    return None
+
+
+def _holder_of(fi: FunctionInfo, n: ast.AST) -> str | None:
+    """'settings' or 'document': the object a per-document option is read from / stored on"""
+    obj = n.value if isinstance(n, ast.Attribute) else (n.args[0] if isinstance(n, ast.Call) and n.args else None)
+    if isinstance(obj, ast.Name) and obj.id not in fi.params:
+        obj = _deref(fi, obj)
+    if isinstance(obj, ast.Attribute) and obj.attr in OPTION_HOLDERS:
+        return obj.attr
     return None
 
 
@@ -1419,7 +1465,7 @@ def _resolve_setting(fi: FunctionInfo, e: ast.expr, env: dict[str, ast.expr] | N
         base_ = e.value
         if isinstance(base_, ast.Name) and base_.id not in fi.params:
             base_ = _deref(fi, base_)
-        if isinstance(base_, ast.Attribute) and base_.attr == "settings":
+        if isinstance(base_, ast.Attribute) and (base_.attr == "settings" or (base_.attr == "document" and e.attr.startswith("myst_"))):
             return [("setting", e.attr, e)]
         if isinstance(e.value, ast.Attribute) and e.value.attr in ("myst_config", "md_config", "config"):
             return [("foreign", unparse(e), e)]
@@ -1428,9 +1474,11 @@ def _resolve_setting(fi: FunctionInfo, e: ast.expr, env: dict[str, ast.expr] | N
         obj = e.args[0]
         obj = _deref(fi, obj) if isinstance(obj, ast.Name) and obj.id not in fi.params else obj
         name = _const_str(e.args[1], env)
-        if isinstance(obj, ast.Attribute) and obj.attr == "settings":
+        if isinstance(obj, ast.Attribute) and obj.attr in OPTION_HOLDERS:
             if name is None:
                 raise Unsupported(f"{fi.module.site(e)}: setting name `{short(e.args[1], 40)}` is not a literal")
+            if obj.attr == "document" and not name.startswith("myst_"):
+                return []
             return [("setting", name, e)]
         if isinstance(obj, ast.Attribute) and obj.attr in ("myst_config", "md_config", "config"):
             return [("foreign", f"{unparse(obj)}.{name or short(e.args[1], 30)}", e)]
@@ -2082,6 +2130,47 @@ def r8_total_order_key(corpus: Corpus, rep: Report, tier: str):
 # R9 - the footnote transition is placed where docutils allows one
 
 
+def _is_footnote_test(f: FunctionInfo, e: ast.AST):
+    """(subject, negated) for ``isinstance(subject, nodes.footnote)`` / ``not isinstance(...)``"""
+    neg = False
+    while isinstance(e, ast.UnaryOp) and isinstance(e.op, ast.Not):
+        e, neg = e.operand, not neg
+    if isinstance(e, ast.Call) and dotted(e.func) == "isinstance" and len(e.args) == 2 and f.module.resolve(dotted(e.args[1]) or "") == "docutils.nodes.footnote":
+        return e.args[0], neg
+    return None
+
+
+def _some_child_is_not_a_footnote(f: FunctionInfo, t: ast.expr, holds: bool) -> str | None:
+    """The guard fact ``t`` (true iff ``holds``) is meant to say 'some child of the document is not a footnote'.
+    Returns a description if its shape provably says something else; None if right or not of a decided shape."""
+    t = _deref(f, t) if isinstance(t, ast.Name) else t
+    while isinstance(t, ast.UnaryOp) and isinstance(t.op, ast.Not):
+        t, holds = t.operand, not holds
+    if isinstance(t, ast.Name):
+        t = _deref(f, t)
+    # all(...) / any(...) over the document's children
+    if isinstance(t, ast.Call) and dotted(t.func) in ("all", "any") and len(t.args) == 1 and isinstance(t.args[0], (ast.GeneratorExp, ast.ListComp)) and len(t.args[0].generators) == 1:
+        g = t.args[0].generators[0]
+        ft = _is_footnote_test(f, t.args[0].elt)
+        over_children = any(_is_document(x) for x in ast.walk(g.iter))
+        if ft is None or not over_children or not (isinstance(g.target, ast.Name) and _is_name(ft[0], g.target.id)) or g.ifs:
+            return None
+        q, inner_neg = dotted(t.func), ft[1]
+        # 'some child is not a footnote' == any(not F) == not all(F)
+        right = (q == "any" and inner_neg and holds) or (q == "all" and not inner_neg and not holds)
+        if right:
+            return None
+        words = {("all", False, True): "all children are footnotes", ("any", False, True): "some child is a footnote", ("any", False, False): "no child is a footnote", ("all", True, True): "no child is a footnote", ("all", True, False): "some child is a footnote", ("any", True, False): "all children are footnotes"}
+        return f"the transition is only added when {words.get((q, inner_neg, holds), 'a different condition holds')} (`{short(t, 60)}`)"
+    # a single, fixed child decides
+    ft = _is_footnote_test(f, t)
+    if ft is not None:
+        subj = _deref(f, ft[0]) if isinstance(ft[0], ast.Name) else ft[0]
+        if isinstance(subj, ast.Subscript) and any(_is_document(x) for x in ast.walk(subj.value)) and isinstance(subj.slice, (ast.Constant, ast.UnaryOp)):
+            return f"one fixed child decides for all of them (`{short(t, 60)}`)"
+    return None
+
+
 def _tests_transition(fi: FunctionInfo, n: ast.AST) -> bool:
     """``isinstance(x, nodes.transition)`` or a comparison with the tag name 'transition'"""
     if isinstance(n, ast.Call) and dotted(n.func) == "isinstance" and len(n.args) == 2:
@@ -2137,10 +2226,17 @@ def r9_transition_placement(corpus: Corpus, rep: Report, tier: str):
     tfi, tctor, outer = tsites[0]
     st = get_cfg(tfi).stmt_of(tctor)
     guards = [(fi, t) for t, _pol in cfg.guards(outer)]
+    pols = {id(t): p_ for t, p_ in cfg.guards(outer)}
     if tfi is not fi:
         guards += [(tfi, t) for t, _pol in get_cfg(tfi).guards(st)]
+        pols.update({id(t): p_ for t, p_ in get_cfg(tfi).guards(st)})
 
     def looks_at_document(f: FunctionInfo, t: ast.expr) -> bool:
+        try:
+            if _resolve_setting(f, t):
+                return False  # a per-document option stored on the document, not a look at its children
+        except Unsupported:
+            pass
         roots: list[ast.AST] = []
         for x in ast.walk(t):
             if isinstance(x, ast.Name):
@@ -2160,7 +2256,18 @@ def r9_transition_placement(corpus: Corpus, rep: Report, tier: str):
     inspects_children = [t for f, t in guards if looks_at_document(f, t)]
     site = tfi.module.site(st)
     key = f"{fi.fq}|footnote transition|not the first element of the document"
-    if inspects_children:
+    wrong = None
+    for f, t in guards:
+        if t in inspects_children:
+            wrong = wrong or _some_child_is_not_a_footnote(f, t, pols.get(id(t), True))
+    if wrong:
+        rep.violation(
+            "C11.R9",
+            key,
+            site,
+            f"{wrong}; after the move the document starts with the footnote block exactly when ALL its children are footnotes, so the transition has to be added whenever SOME child is not a footnote (and only then): otherwise a configured transition goes missing, or a document of footnotes only begins with a transition",
+        )
+    elif inspects_children:
         rep.ok("C11.R9", key, site, short(inspects_children[0], 70))
     else:
         rep.violation("C11.R9", key, site, "the transition is appended without looking at the document's children: a document that consists of footnote definitions only then begins with a transition (docutils: 'Document or section may not begin with a transition')")
@@ -2630,7 +2737,34 @@ def _class_attr_stmt(m: Module, cname: str, attr: str) -> ast.Assign | None:
     return None
 
 
+def _option_reads(fi: FunctionInfo, root: ast.AST, name: str) -> list[ast.expr]:
+    """expressions below ``root`` that read the per-document option ``name`` (attribute or getattr spelling)"""
+    out = []
+    for x in ast.walk(root):
+        if isinstance(x, ast.Attribute) and isinstance(parent(x), ast.Attribute):
+            continue
+        if isinstance(x, (ast.Attribute, ast.Call)):
+            try:
+                srcs = _resolve_setting(fi, x)
+            except Unsupported:
+                continue
+            if len(srcs) == 1 and srcs[0][0] == "setting" and srcs[0][1] == name and srcs[0][2] is x:
+                out.append(x)
+    return sorted(out, key=lambda n: (n.lineno, n.col_offset))
+
+
+def _reread(n: ast.expr, new_name: str, holder: str | None = None) -> str:
+    """source text reading another option (or the same one from another holder) in the spelling of ``n``"""
+    if isinstance(n, ast.Attribute):
+        obj = unparse(n.value) if holder is None else holder
+        return f"{obj}.{new_name}"
+    obj = unparse(n.args[0]) if holder is None else holder
+    rest = "".join(", " + unparse(a) for a in n.args[2:])
+    return f"getattr({obj}, \"{new_name}\"{rest})"
+
+
 def mutants(corpus: Corpus):
+    _use(corpus)
     out: list = []
 
     def add(mid, rule_id, m, node, text, expect, canary=False):
@@ -2751,6 +2885,9 @@ def mutants(corpus: Corpus):
         # revert of fix 65fc250: the document-wide name table decides what a duplicate is
         add("c11-revert-65fc250-duplicate-test-nameids", "C11.R6", base, dup.test, f"{lab} in self.document.nameids", "against document.nameids", True)
         add("c11-duplicate-test-ids-table", "C11.R6", base, dup.test, f"{lab} in self.document.ids", "against document.ids")
+        # look-up spellings of the same mistakes (class of seed6 out-c11/2)
+        add("c11-duplicate-test-id-lookup", "C11.R6", base, dup.test, f"isinstance(self.document.ids.get(nodes.make_id({lab})), nodes.footnote)", "labels compared verbatim")
+        add("c11-duplicate-test-nameids-lookup", "C11.R6", base, dup.test, f"self.document.nameids.get({lab}) is not None", "against document.nameids")
         # labels compared in a folded form although they are stored verbatim (class of seed4 out-c11/3)
         mcmp = next((x for x in ast.walk(dup.test) if isinstance(x, ast.Compare) and isinstance(x.ops[0], ast.In) and isinstance(x.left, ast.Name)), None)
         if mcmp is not None:
@@ -2803,7 +2940,7 @@ def mutants(corpus: Corpus):
         add("c11-collector-copy-not-move", "C11.R4", tm, a, "pass", "detach once")
         add("c11-collector-descending", "C11.R4", tm, loop.iter, _seg(tm, loop.iter)[:-1] + ", reverse=True)", "ascending")
         # loop indented under the transition test
-        tif = find_node(cf, lambda n: isinstance(n, ast.If) and any(_setting_name(x) == "myst_footnote_transition" for x in ast.walk(n.test) if isinstance(x, ast.expr)))
+        tif = find_node(cf, lambda n: isinstance(n, ast.If) and bool(_option_reads(cf, n.test, "myst_footnote_transition")))
         if tif is not None and tif.end_lineno < loop.lineno:
             # the `if` is moved below the key function the loop needs, the loop is indented into it
             out.append(Mutant("c11-collector-under-transition-test", "C11.R4", tm.rel, _move_loop_into_if(tm, tif, loop), expect="move loop|guard"))
@@ -2813,15 +2950,15 @@ def mutants(corpus: Corpus):
         add("c11-collector-skips-autofootnotes", "C11.R4", tm, n, "[]", "gathers document.autofootnotes")
     ret_if = find_node(cf, lambda n: isinstance(n, ast.If) and any(isinstance(x, ast.Return) for x in n.body))
     if ret_if is not None:
-        n = next((x for x in ast.walk(ret_if.test) if isinstance(x, ast.Attribute) and x.attr == "myst_footnote_sort"), None)
-        add("c11-collector-guarded-by-transition-setting", "C11.R4", tm, n, f"{unparse(n.value)}.myst_footnote_transition" if n is not None else "", "guard", False)
+        n = next(iter(_option_reads(cf, ret_if.test, "myst_footnote_sort")), None)
+        add("c11-collector-guarded-by-transition-setting", "C11.R4", tm, n, _reread(n, "myst_footnote_transition") if n is not None else "", "guard", False)
         add("c11-collector-always-runs", "C11.R4", tm, ret_if.test, "False", "move loop|guard")
     st = find_stmt(cf, lambda n: isinstance(n, ast.AugAssign) and _is_name(n.value, "transition"))
     add("c11-transition-into-last-parent", "C11.R4", tm, st.target if st is not None else None, "self.document.children[-1]", "transition|")
     tctor = find_stmt(cf, lambda n: isinstance(n, ast.Assign) and "nodes.transition" in unparse(n.value))
-    tif = find_node(cf, lambda n: isinstance(n, ast.If) and any(_setting_name(x) == "myst_footnote_transition" for x in ast.walk(n.test) if isinstance(x, ast.expr)))
+    tif = find_node(cf, lambda n: isinstance(n, ast.If) and bool(_option_reads(cf, n.test, "myst_footnote_transition")))
     if tif is not None:
-        n = next((x for x in ast.walk(tif.test) if isinstance(x, ast.Attribute) and _setting_name(x) == "myst_footnote_transition"), None)
+        n = next(iter(_option_reads(cf, tif.test, "myst_footnote_transition")), None)
         add("c11-transition-ignores-its-setting", "C11.R4", tm, n, "True", "transition|")
     sf = tm.func("SortFootnotes.apply")
     n = find_node(sf, lambda n: isinstance(n, ast.Attribute) and n.attr == "autofootnote_refs")
@@ -2869,15 +3006,20 @@ def mutants(corpus: Corpus):
         val = _seg(pmod, first.value)
         add(mid, "C11.R7", pmod, first, f"{cname} = getattr(self, \"_myst_config\", None)\n{fi_}if {cname} is None:\n{fi_}    {cname} = self._myst_config = {val}", "configuration is built from this document")
     # the transforms take the footnote options from the build-wide configuration (class of seed5 out-c11/3)
-    g_sort = find_node(cf, lambda n: isinstance(n, ast.Attribute) and n.attr == "myst_footnote_sort" and isinstance(n.value, ast.Attribute) and n.value.attr == "settings")
+    g_sort = next(iter(_option_reads(cf, cf.node, "myst_footnote_sort")), None)
     if g_sort is not None:
-        add("c11-collector-reads-build-wide-config", "C11.R7", tm, g_sort, f"{unparse(g_sort.value)}.env.myst_config.footnote_sort", "read from the document settings")
+        add("c11-collector-reads-build-wide-config", "C11.R7", tm, g_sort, "self.document.settings.env.myst_config.footnote_sort", "read from the document settings")
+        # revert-style: the transform reads a store the renderer does not write (other object / other name)
+        holder_now = _holder_of(cf, g_sort)
+        other = "self.document.settings" if holder_now == "document" else "self.document"
+        add("c11-collector-reads-option-from-other-object", "C11.R7", tm, g_sort, _reread(g_sort, "myst_footnote_sort", other), "setting myst_footnote_sort")
+        add("c11-collector-reads-unwritten-option-name", "C11.R7", tm, g_sort, _reread(g_sort, "myst_footnote_sorted"), "setting myst_footnote_sorted")
         helper_src = splice(tm.src, g_sort, "_footnote_option(self.document, \"sort\")") + (
             "\n\ndef _footnote_option(document, name):\n"
             "    env = getattr(document.settings, \"env\", None)\n"
             "    if env is not None:\n"
             "        return getattr(env.myst_config, f\"footnote_{name}\")\n"
-            "    return getattr(document.settings, f\"myst_footnote_{name}\")\n"
+            "    return getattr(document, f\"myst_footnote_{name}\", True)\n"
         )
         out.append(Mutant("c11-collector-option-helper-prefers-env-config", "C11.R7", tm.rel, helper_src, expect="read from the document settings"))
     else:
@@ -2933,7 +3075,7 @@ def mutants(corpus: Corpus):
     # collector gated by the transition setting through an early return (class of seed out-c11/3)
     if loop is not None:
         li = " " * loop.col_offset
-        add("c11-collector-returns-early-without-transition", "C11.R4", tm, loop, f"if not self.document.settings.myst_footnote_transition:\n{li}    return\n{li}{_seg(tm, loop)}", "move loop|guard")
+        add("c11-collector-returns-early-without-transition", "C11.R4", tm, loop, f"if not {_reread(g_sort, 'myst_footnote_transition') if g_sort is not None else 'self.document.myst_footnote_transition'}:\n{li}    return\n{li}{_seg(tm, loop)}", "move loop|guard")
     # ---- R11: the unreferenced-footnote detector (class of seed2 out-c11/3: reports collapse / stop early)
     det = tm.functions.get("UnreferencedFootnotesDetector.apply")
     if det is None:
@@ -3002,6 +3144,11 @@ def mutants(corpus: Corpus):
     if tif is not None:
         n = next((x for x in ast.walk(tif.test) if isinstance(x, ast.UnaryOp) and isinstance(x.op, ast.Not) and "children" in unparse(x)), None)
         add("c11-transition-may-open-document", "C11.R9", tm, n, "True", "not the first element")
+        # the quantifier over the document's children is weakened / inverted (class of seed6 out-c11/3)
+        if n is not None:
+            add("c11-transition-guard-looks-at-first-child-only", "C11.R9", tm, n, "not isinstance(self.document.children[0], nodes.footnote)", "not the first element")
+            add("c11-transition-guard-looks-at-last-child-only", "C11.R9", tm, n, "not isinstance(self.document.children[-1], nodes.footnote)", "not the first element")
+            add("c11-transition-guard-no-child-is-a-footnote", "C11.R9", tm, n, "not any(isinstance(c, nodes.footnote) for c in self.document.children)", "not the first element")
         # the look-out for a final transition stops at the top level (class of seed3 out-c11/3)
         ewt = next((h for _c, h in _helper_calls(cf) if any(_tests_transition(h, x) for x in h.local_nodes())), None)
         wloop = find_node(ewt, lambda n: isinstance(n, (ast.While, ast.For))) if ewt is not None else None
